@@ -5,6 +5,7 @@ import (
 	stdjson "encoding/json"
 	"fmt"
 	"io"
+	"math"
 	"reflect"
 	"strings"
 
@@ -15,6 +16,8 @@ import (
 	"github.com/evanphx/json-patch/v5/verifharness/mon"
 	"github.com/evanphx/json-patch/v5/verifharness/refenc"
 )
+
+var floatMantissas = []float64{1, 1.5, 9.999999, 2.5000001, 7}
 
 func syntaxOffset(err error) (int64, bool) {
 	switch e := err.(type) {
@@ -91,6 +94,40 @@ func judgeRoundTrip(c *core.Ctx, text string) {
 		}
 		c.Count("roundtrip:ok")
 		c.Nontrivial("rt", text)
+		// the same round trip through every decoding entry point of the fork (each takes its own
+		// decodeState from the pool and must configure it itself) and both escape settings
+		for _, api := range []string{"UnmarshalWithKeys", "UnmarshalValid", "UnmarshalValidWithKeys"} {
+			var v2 any
+			var out2 []byte
+			var e1, e2 error
+			esc := c.R.Intn(2) == 0
+			pn := mon.Try(func() {
+				switch api {
+				case "UnmarshalWithKeys":
+					_, e1 = ij.UnmarshalWithKeys(b, &v2)
+				case "UnmarshalValid":
+					e1 = ij.UnmarshalValid(b, &v2)
+				default:
+					_, e1 = ij.UnmarshalValidWithKeys(b, &v2)
+				}
+				if e1 == nil {
+					out2, e2 = ij.MarshalEscaped(v2, esc)
+				}
+			})
+			c.Eval(2)
+			d2 := map[string]any{"input": clip(text, 1500), "decoded_with": api, "escape_html": esc, "reencoded": clip(string(out2), 1500), "unmarshal_error": errText(e1), "marshal_error": errText(e2)}
+			if pn != nil {
+				d2["panic"] = panicDetail(pn)
+				c.Violation("roundtrip:"+api+":"+pn.Sig(), d2)
+				return
+			}
+			got2, err := jr.Parse(out2)
+			if e1 != nil || e2 != nil || err != nil || !jr.Equal(in, got2, jr.EqMode{}) {
+				c.Violation("roundtrip:"+api+"-then-encode-changes-the-value", d2)
+				return
+			}
+			c.Count("roundtrip:" + api + ":ok")
+		}
 	}
 	// key lists
 	if in.K == jr.Obj {
@@ -489,7 +526,7 @@ func init() {
 		Finish:      poolFinish,
 		Floors: func(t core.Tier, m *core.Merged) []string {
 			out := poolFloor(m)
-			for _, k := range []string{"roundtrip:ok", "keys:ok", "transform:ok", "marshal:ok", "typed:unmarshal-ok", "typed:marshal-ok", "typed:decoder-ok", "stream:decode-ok", "stream:token-ok"} {
+			for _, k := range []string{"roundtrip:ok", "roundtrip:UnmarshalValid:ok", "roundtrip:UnmarshalValidWithKeys:ok", "roundtrip:UnmarshalWithKeys:ok", "keys:ok", "transform:ok", "marshal:ok", "typed:unmarshal-ok", "typed:marshal-ok", "typed:decoder-ok", "stream:decode-ok", "stream:token-ok"} {
 				if m.Counts[k] < 2000 {
 					out = append(out, k+" fewer than 2000")
 				}
@@ -545,6 +582,26 @@ func init() {
 					judgeMarshal(c, v.Interface(), "struct")
 					judgeMarshal(c, v.Elem().Interface(), "struct-value")
 					judgeMarshal(c, []any{v.Interface(), map[string]any{"k": v.Elem().Interface()}}, "struct-nested")
+				}
+			}},
+			{Name: "float-spelling", Exhaustive: true, Count: func(core.Tier) int { return len(floatMantissas) * 71 }, Run: func(c *core.Ctx, idx int) {
+				// every decimal exponent -35..35 x a few mantissas, as float64 and float32, plain, behind a pointer,
+				// in an interface, as map value, in a struct field and in a `,string` field: Marshal bytes against encoding/json
+				f := floatMantissas[idx%len(floatMantissas)] * math.Pow(10, float64(idx/len(floatMantissas)-35))
+				if idx%2 == 1 {
+					f = -f
+				}
+				f32 := float32(f)
+				type quoted struct {
+					Q  float64  `json:"q,string"`
+					P  *float64 `json:"p,string"`
+					F  float32  `json:"f,string"`
+					N  float64  `json:"n"`
+					O  float64  `json:"o,omitempty"`
+					PF *float32 `json:",omitempty"`
+				}
+				for _, v := range []any{f, f32, &f, []any{f, f32}, map[string]float64{"k": f}, map[string]any{"k": f32}, quoted{Q: f, P: &f, F: f32, N: f, O: f, PF: &f32}, &quoted{Q: f}, []float32{f32}} {
+					judgeMarshal(c, v, "float-spelling")
 				}
 			}},
 			{Name: "typed-basic-targets", Count: n(20000, 400000), Run: func(c *core.Ctx, idx int) {
